@@ -21,6 +21,7 @@
 #include <sys/wait.h>
 #include <pthread.h>
 #include <malloc.h>
+#include <locale.h>
 extern "C" {
 #include "xraylib.h"
 }
@@ -355,6 +356,28 @@ static std::string run_simple(const std::string &line) {
   return r;
 }
 
+// slot mode, error objects are kept alive until the end of the history (later calls must not affect them)
+static std::vector<std::pair<xrl_error *, std::string>> kept_errors;
+static std::string run_keep(const std::string &line) {
+  Ctx c;
+  c.tok = split(line);
+  callfn f = lookup(c.tok[0]);
+  if (!f) return "X\tunknown-function";
+  c.mode = 0; c.slot = NULL;
+  f(c);
+  std::string r = "R\t" + c.result + "\tE\t" + errdesc(c.slot);
+  if (c.slot) kept_errors.push_back({c.slot, errdesc(c.slot)});
+  c.reset_args();
+  return r;
+}
+
+struct Range { unsigned long addr, size; };
+__attribute__((no_sanitize("address"))) static unsigned long long fnv_ranges(const std::vector<Range> &rs) {
+  unsigned long long h = 1469598103934665603ULL;
+  for (auto &r : rs) { const unsigned char *p = (const unsigned char *) r.addr; for (unsigned long i = 0; i < r.size; i++) { h ^= p[i]; h *= 1099511628211ULL; } }
+  return h;
+}
+
 static std::vector<std::string> read_lines(const char *path) {
   std::vector<std::string> v;
   FILE *f = fopen(path, "r");
@@ -365,16 +388,30 @@ static std::vector<std::string> read_lines(const char *path) {
   return v;
 }
 
+#include <atomic>
+static std::atomic<int> live_workers{0};
+static std::atomic<int> setlocale_while_threaded{0};
+#ifdef XRLCALL_WRAP_SETLOCALE
+// link-level observer (-Wl,--wrap=setlocale): POSIX documents setlocale as MT-Unsafe, so any call that changes the locale while more than
+// one worker is inside the library is a race by specification, even though ThreadSanitizer cannot look into libc
+extern "C" char *__real_setlocale(int, const char *);
+extern "C" char *__wrap_setlocale(int cat, const char *loc) {
+  if (loc != NULL && live_workers.load() > 1) setlocale_while_threaded++;
+  return __real_setlocale(cat, loc);
+}
+#endif
 struct TArg { const std::vector<std::string> *lines; size_t k, T; std::vector<std::string> out; pthread_barrier_t *bar; unsigned yield_seed; };
 static void *tmain(void *p) {
   TArg *a = (TArg *) p;
   pthread_barrier_wait(a->bar);
+  live_workers++;
   unsigned s = a->yield_seed * 2654435761u + (unsigned) a->k;
   for (size_t i = a->k; i < a->lines->size(); i += a->T) {
     s = s * 1664525u + 1013904223u;
     if (a->yield_seed && (s >> 28) == 0) sched_yield();
     a->out.push_back(run_simple((*a->lines)[i]));
   }
+  live_workers--;
   return NULL;
 }
 
@@ -409,7 +446,33 @@ int main(int argc, char **argv) {
     }
   } else if (mode == "simple") {
     for (auto &l : lines) { std::string r = run_simple(l); fputs(r.c_str(), out); fputc('\n', out); }
+  } else if (mode == "history") {
+    // argv[4] = file with "addr size" lines (hex): data/bss/rodata ranges contributed by libxrl.a (from the link map)
+    std::vector<Range> ranges;
+    if (argc > 4) { for (auto &l : read_lines(argv[4])) { Range r; if (sscanf(l.c_str(), "%lx %lx", &r.addr, &r.size) == 2) ranges.push_back(r); } }
+    setlocale(LC_ALL, "C.utf8");
+    std::string loc0 = std::string(setlocale(LC_ALL, NULL)) + "|" + setlocale(LC_NUMERIC, NULL);
+    char cwd0[4096]; if (!getcwd(cwd0, sizeof cwd0)) cwd0[0] = 0;
+    unsigned long long ck0 = fnv_ranges(ranges);
+    int so_saved = dup(1); int so_fd = memfd_create("xrlcall-stdout", 0); fflush(stdout); dup2(so_fd, 1);
+    capture_begin();
+    std::vector<std::string> res;
+    for (auto &l : lines) res.push_back(run_keep(l));
+    std::string serr = capture_end();
+    fflush(stdout); dup2(so_saved, 1);
+    off_t n = lseek(so_fd, 0, SEEK_END);
+    std::string sout((size_t) (n > 0 ? n : 0), 0);
+    if (n > 0 && pread(so_fd, &sout[0], (size_t) n, 0) < 0) sout.clear();
+    unsigned long long ck1 = fnv_ranges(ranges);
+    std::string loc1 = std::string(setlocale(LC_ALL, NULL)) + "|" + setlocale(LC_NUMERIC, NULL);
+    char cwd1[4096]; if (!getcwd(cwd1, sizeof cwd1)) cwd1[0] = 0;
+    bool errs_ok = true;
+    for (auto &ke : kept_errors) { if (errdesc(ke.first) != ke.second) errs_ok = false; xrl_error_free(ke.first); }
+    for (auto &r : res) { fputs(r.c_str(), out); fputc('\n', out); }
+    fprintf(out, "STATE\t%llx\t%llx\t%d\t%d\t%d\t%s\t%s\t%zu\t%zu\n", ck0, ck1, loc0 == loc1 ? 1 : 0, strcmp(cwd0, cwd1) == 0 ? 1 : 0, errs_ok ? 1 : 0,
+            serr.empty() ? "-" : hexenc(serr.c_str(), serr.size()).c_str(), sout.empty() ? "-" : hexenc(sout.c_str(), sout.size()).c_str(), kept_errors.size(), ranges.size());
   } else if (mode == "fresh") {
+    setlocale(LC_ALL, "C.utf8");
     // every call in a child forked from a parent that has never called the library
     for (auto &l : lines) {
       int pfd[2];
@@ -441,6 +504,7 @@ int main(int argc, char **argv) {
     for (size_t k = 0; k < T; k++) pthread_join(th[k], NULL);
     std::vector<size_t> idx(T, 0);
     for (size_t i = 0; i < lines.size(); i++) { size_t k = i % T; fputs(args[k].out[idx[k]++].c_str(), out); fputc('\n', out); }
+    fprintf(out, "TSTATE\t%d\n", setlocale_while_threaded.load());
   } else { fprintf(stderr, "bad mode\n"); return 2; }
   fclose(out);
   return 0;
